@@ -95,5 +95,8 @@ ASSUME \A p \in 4..16 : \A n \in {0, 1, 2, 7, 100, 5 * (2 ^ p)} :
           /\ EstOK(p, n, n)
           /\ ~EstOK(p, n, 2 * n + 20 + 4 * n)
           /\ (n > 0 => ~EstOK(p, n, 1073741824))
+\* small sets: near exact (the repository's own examples: 7 and 10 items at p = 10)
+ASSUME EstOK(10, 7, 7) /\ EstOK(10, 10, 10) /\ EstOK(10, 10, 12) /\ ~EstOK(10, 10, 14) /\ ~EstOK(10, 7, 3)
+ASSUME EstOK(16, 6553, 6600) /\ ~EstOK(16, 6553, 6753) /\ EstOK(4, 1, 1) /\ ~EstOK(4, 1, 5)
 ASSUME ~EstOK(16, 100000, 120000) /\ EstOK(16, 165967, 170637) /\ ~EstOK(4, 40, 1073741824)
 =============================================================================
